@@ -200,7 +200,7 @@ class Var:
         for a, stmt, where in stmt_attrs:
             names = ", ".join(st.ref(n) for n in self.names)
             if a == "parameter":
-                s = st.kw("parameter") + " (" + ", ".join(f"{st.ref(n)} = {self.init_of(k)}" for k, n in enumerate(self.names)) + ")"
+                s = st.kw("parameter") + st.pick(f"{site}:parameter-stmt-blank", [" (", "("]) + ", ".join(f"{st.ref(n)} = {self.init_of(k)}" for k, n in enumerate(self.names)) + ")"
             elif a in ("dimension", "dimension2"):
                 shp = ATTRS[a][2]["shape"]
                 form = st.pick(f"{site}:dimension-stmt-form", ["dimension :: x(s)", "dimension x(s)"])
@@ -322,10 +322,11 @@ class TypeDef(Item):
                 out.append(f"  {st.kw('generic')} :: {gname} => " + ", ".join(st.ref(s) for s in specifics))
             if self.finals:
                 form = st.pick(f"{site}:final-one-line", ["one", "many"]) if len(self.finals) > 1 else "one"
+                fsep = st.pick(f"{site}:final-double-colon", [" :: ", " "])
                 if form == "one":
-                    out.append(f"  {st.kw('final')} :: " + ", ".join(st.ref(f) for f in self.finals))
+                    out.append(f"  {st.kw('final')}{fsep}" + ", ".join(st.ref(f) for f in self.finals))
                 else:
-                    out += [f"  {st.kw('final')} :: {st.ref(f)}" for f in self.finals]
+                    out += [f"  {st.kw('final')}{fsep}{st.ref(f)}" for f in self.finals]
         out.append(st.end("type", self.name))
         return out
 
@@ -586,6 +587,30 @@ class Common(Item):
                 out.append(r)
                 names.append([r["name"], r["vartype"]])
         out.append(dict(path="/".join(path), kind="common", name=self.name.lower(), vars=names))
+        return out
+
+
+class Namelist2(Item):
+    """one NAMELIST statement declaring two groups: namelist /a/ x, y /b/ z"""
+
+    def __init__(self, name1, vars1, name2, vars2):
+        self.g = [(name1, list(vars1)), (name2, list(vars2))]
+
+    def spec(self, st, site):
+        decls = []
+        for gi, (_, vs) in enumerate(self.g):
+            for i, v in enumerate(vs):
+                decls += v.lines(st, f"{site}:n{gi}var{i}")
+        comma = st.pick(f"{site}:namelist-comma-between-groups", [" ", ", "])
+        parts = [f"/{name}/ " + ", ".join(st.ref(n) for v in vs for n in v.names) for name, vs in self.g]
+        return decls + [st.kw("namelist") + " " + comma.join(parts)]
+
+    def records(self, path):
+        out = []
+        for name, vs in self.g:
+            for v in vs:
+                out += v.records(path)
+            out.append(dict(path="/".join(path), kind="namelist", name=name.lower(), vars=[n.lower() for v in vs for n in v.names]))
         return out
 
 
